@@ -365,22 +365,26 @@ def importEntry (cfg : Cfg) (a : Anchor) (h : Header) (m : Meta) : Option (Key Ã
 
 /-! ### addSlotToEntry and its callers -/
 
+/-- `chainSlots(inode.more, slotId)` resp. `chainSlots(anchor.start, slotId)` at the top of addSlotToEntry
+    (`owner` is written by the `finalizeChecksOwner` variant only; no other variant reads it) -/
+def chainSlot (g : Geo) (pos : Int) (st : St) (f : Nat) (s : Int) : M St := do
+  check (slotOk g pos s) .badSlotId
+  check (decide ((st.ls s).more < 0)) .slotChained
+  if (st.le f).anchored then do
+    let ino := (st.an f).start
+    check (slotOk g pos ino) .badSlotId
+    let ls1 := upd st.ls s { st.ls s with more := (st.ls ino).more, owner := (f : Int) }
+    let ls2 := upd ls1 ino { ls1 ino with more := s }
+    pure ({ st with ls := ls2 } : St)
+  else
+    pure ({ st with ls := upd st.ls s { st.ls s with more := (st.an f).start, owner := (f : Int) },
+                    an := upd st.an f { st.an f with start := s } } : St)
+
 /-- `Rebuild::addSlotToEntry` -/
 def addSlotToEntry (cfg : Cfg) (g : Geo) (pos : Int) (st : St) (f : Nat) (s : Int) (h : Header) (m : Meta) : M St := do
   check (decide (f < g.entries)) .badFileNo
   check (st.an f).writing .notWriting
-  -- chainSlots
-  check (slotOk g pos s) .badSlotId
-  check (decide ((st.ls s).more < 0)) .slotChained
-  let st1 â† (if (st.le f).anchored then do
-      let ino := (st.an f).start
-      check (slotOk g pos ino) .badSlotId
-      let ls1 := upd st.ls s { st.ls s with more := (st.ls ino).more, owner := (f : Int) }
-      let ls2 := upd ls1 ino { ls1 ino with more := s }
-      pure ({ st with ls := ls2 } : St)
-    else
-      pure ({ st with ls := upd st.ls s { st.ls s with more := (st.an f).start, owner := (f : Int) },
-                      an := upd st.an f { st.an f with start := s } } : St))
+  let st1 â† chainSlot g pos st f s
   let st2 : St := { st1 with le := upd st1.le f { st1.le f with size := (st1.le f).size + h.payloadSize } }
   if h.firstSlot = s then
     if (st2.le f).anchored then do
